@@ -151,6 +151,19 @@ CHECKS["C17"] = dict(
    note="Trusted: Coq kernel + vm_compute; scheduler primitives; multiprocessing.active_children()/threading.enumerate() as census; CPython refcounting for __del__. Partial: OS reaping, "
         "join wall-clock (one 5 s join per worker, then terminate(), after a failed start-up) are observed, not modelled.",
    technique="Coq proof (decreasing potential after stop; process-table invariants) over hand-written models + lockstep correspondence (thread scheduler; pid census) + census oracle")
+CHECKS["C09"] = dict(
+   text="Fault extension of the SDL model (SdlFault.v: _next_data with the alphabet Arrive / Die w / Timeout of the _get_data wait loop; main-process functions are SdlModel's). Theorems in "
+        "Properties_C09.v, for every state and every fault schedule: StopIteration is raised only when every task sent is accounted for (a dead worker's unanswered task blocks the end of the "
+        "epoch - never a short epoch as if complete); when main waits and an expected worker is dead the next poll expiry raises the worker-death error; the awaited task always belongs to an "
+        "expected worker. Tie to the code: REAL worker processes are SIGKILLed at enumerated crash points (idle after k batches, inside the fetch of a chosen item, inside collate_fn, while the "
+        "result is pickled, inside worker_init_fn, inside iter(dataset) at a persistent worker's epoch resume; one or two deaths) under a scheduled arrival order; the realised trace is replayed "
+        "on the model and outcome sequences compared; oracle: delivered batches are a prefix of the reference, RuntimeError is raised within the deadline, never StopIteration short of the epoch, "
+        "and the checkpoint taken before the death (pickled) resumes to the uninterrupted remainder in a fresh loader.",
+   design="DESIGN.md 4 C09",
+   note="PARTIAL: wall-clock bound (MP_STATUS_CHECK_INTERVAL polls, 40 s deadline per call in the harness), SIGCHLD delivery, is_alive() and pipe state after SIGKILL are runtime behaviour, "
+        "observed by the correspondence run and not modelled; the model assumes a dead worker answers nothing further and that the poll's liveness test is accurate. Trusted: Coq kernel + vm_compute; "
+        "arrival-scheduling context; in scheduled cases torch's SIGCHLD handler is switched off so that detection goes through the poll (free-running cases keep it).",
+   technique="Coq proof (wait-loop logic under all fault schedules) over hand-written model + trace-replay correspondence with real SIGKILL at enumerated crash points + deadline oracle")
 props = [json.loads(l) for l in open(os.path.join(V, "properties.jsonl"))]
 checks, na = [], []
 for p in props:
